@@ -655,6 +655,7 @@ func (rc RetCase) Cmps() []Cmp {
 	for _, c := range rc.Facts {
 		if m, ok := AsCmp(c); ok {
 			out = append(out, m)
+			out = append(out, deriveCmps(m, 0)...)
 		}
 	}
 	return out
